@@ -29,7 +29,7 @@ def gen_cases(tier, seed):
         for rep in range(10 if q else 80):
             cases.append({"type": "numpy", "class": cl, "s": int(rng.integers(1 << 30)),
                           "thr": float(10.0 ** (-int(rng.integers(3, 11)))), "group": "np"})
-    for cl in ["lowrank", "fullrank", "rankone", "eri", "scaled"]:
+    for cl in ["lowrank", "fullrank", "rankone", "eri", "scaled", "tiny", "scaledfull"]:
         for rep in range(6 if q else 40):
             cases.append({"type": "jax", "class": cl, "s": int(rng.integers(1 << 30)), "n": int(rng.integers(2, 9)),
                           "group": "jax-%d" % (rep % 8), "cost": 3})
@@ -54,6 +54,12 @@ def make_matrix(rng, cl, n=None):
     elif cl == "scaled":
         r = int(rng.integers(1, n + 1))
         v = rng.normal(size=(n, r)) * (10.0 ** rng.uniform(-4, 2, size=n))[:, None]
+    elif cl == "tiny":
+        r = int(rng.integers(1, n + 1))
+        v = rng.normal(size=(n, r)) * 10.0 ** rng.uniform(-7, -3)
+    elif cl == "scaledfull":
+        r = n
+        v = rng.normal(size=(n, n)) * (10.0 ** rng.uniform(-5, 1, size=n))[:, None]
     elif cl == "blocks":
         k = int(rng.integers(1, 4))
         m = int(rng.integers(1, 4))
@@ -97,7 +103,10 @@ def run_jax(case):
     rng = np.random.default_rng(case["s"])
     M, v, r = make_matrix(rng, case["class"], case["n"])
     n = M.shape[0]
-    sv = np.linalg.svd(v, compute_uv=False)
+    # pivoted Cholesky is invariant under diagonal scaling D M D: judge conditioning and errors after normalising the rows of V
+    rown = np.linalg.norm(v, axis=1)
+    rown = np.where(rown > 0, rown, 1.0)
+    sv = np.linalg.svd(v / rown[:, None], compute_uv=False)
     cond = float((sv[0] / sv[r - 1]) ** 2) if sv[r - 1] > 0 else float("inf")
     events = []
     cnt = {"jax_routine": 0, "jax_derivative": 0, "jax_skipped_cond": 0}
@@ -112,8 +121,9 @@ def run_jax(case):
 
     R = np.asarray(recon(jnp.array(M)))
     nrm = max(1e-300, float(np.max(np.abs(M))))
-    events.append(judge("jax/exact-at-rank", float(np.max(np.abs(R - M))) / nrm, 1e-10 * max(1.0, cond ** 0.5), key + "/exact-at-rank",
-                        n=n, rank=r, cond=cond))
+    dscale = np.outer(rown, rown)
+    events.append(judge("jax/exact-at-rank", float(np.max(np.abs(R - M) / dscale)), 1e-10 * max(1.0, cond), key + "/exact-at-rank",
+                        n=n, rank=r, cond=cond, scale=nrm))
     cnt["jax_routine"] = 1
     # derivative along a rank-preserving symmetric direction
     v1 = rng.normal(size=v.shape)
@@ -123,8 +133,10 @@ def run_jax(case):
     fin = bool(np.all(np.isfinite(tan)))
     events.append(ev("jax/derivative-finite", fin, key=key + "/derivative-finite"))
     if fin:
+        v1n = np.linalg.norm(v1, axis=1)
+        dsc = np.outer(rown, np.maximum(v1n, rown)) + np.outer(np.maximum(v1n, rown), rown)
         scale = max(1e-300, float(np.max(np.abs(dM))))
-        events.append(judge("jax/derivative-vs-analytic", float(np.max(np.abs(tan - dM))) / scale, 1e-7 * max(1.0, cond ** 0.5),
+        events.append(judge("jax/derivative-vs-analytic", float(np.max(np.abs(tan - dM) / dsc)), 1e-7 * max(1.0, cond),
                             key + "/derivative-vs-analytic", n=n, rank=r))
         h = 1e-5
         vp, vm = v + h * v1, v - h * v1
